@@ -100,6 +100,8 @@ func buildTermGraph(w *World) *termGraph {
 					}
 					if f, ok := (*op).(*ssa.Function); ok && *op != calleeVal {
 						g.add(sigNode(f.Signature), funcKey(f))
+						// whoever takes the function's value may (have someone) call it: like closure creation
+						g.add(key, funcKey(f))
 					}
 				}
 			}
